@@ -434,6 +434,8 @@ Record pg_subresult := mkPgSub {
   sr_stores    : list (pg_hid * pg_srec);   (* storage.store calls, in order (incl. nested ones) *)
   sr_delivered : list (pg_hid * Z);
   sr_keys      : list pg_hid;               (* `for key in state`: added to every enclosing subrefs container *)
+  sr_trace     : list (pg_hid * Z);         (* all invocations of this level and below, in call order (depth first) *)
+  sr_deeper    : list pg_hid;               (* what the invoked sub-handlers' own levels added to the enclosing containers *)
   sr_done      : bool;
   sr_delay     : option Z;
   sr_final     : pg_state }.
@@ -454,6 +456,8 @@ Definition pg_sub_execute (body : list (pg_hid * pg_srec)) (reason : pg_reason) 
           (flat_map (fun ke => e_stores (snd (snd ke))) ran ++ pg_store_list st')
           (flat_map (fun ke => e_delivered (snd (snd ke))) ran ++ pg_deliver outs)
           (map fst (st_items st'))
+          (flat_map (fun ke => (fst ke, pg_retries_of st (fst ke)) :: e_invoked (snd (snd ke))) ran)
+          (flat_map (fun ke => o_subrefs (fst (snd ke))) ran)
           (pg_done st')
           (pg_delay st' now)
           st'.
@@ -465,7 +469,7 @@ Definition pg_parent_outcome (result : option Z) (sr : pg_subresult) (deeper : l
   (if sr_done sr
    then mkPgOut true None None result (sr_keys sr ++ deeper)
    else mkPgOut false (Some "None") (sr_delay sr) None (sr_keys sr ++ deeper),
-   mkPgEff (sr_invoked sr ++ sr_sub sr) (sr_stores sr) (sr_delivered sr)).
+   mkPgEff (sr_trace sr) (sr_stores sr) (sr_delivered sr)).
 
 (* A description of which top-level ids are parents: id -> (returned token, sub ids owned, sub ids selected). *)
 Definition pg_family := pg_hid -> option (option Z * list pg_hid * list pg_hid).
@@ -478,6 +482,29 @@ Definition pg_children_oracle (body : list (pg_hid * pg_srec)) (reason : pg_reas
     | Some (result, sub_owned, sub_selected) =>
         pg_parent_outcome result (pg_sub_execute body reason sub_owned sub_selected lc now leaf) []
     end.
+
+(* Arbitrary nesting depth.  execution.invoke_handler sets subrefs_var to the containers of ALL enclosing levels plus
+   the handler's own one; subhandling.execute adds every key of its state to every container.  Hence the set of a
+   handler = the keys of its own sub-state + the sets of the sub-handlers invoked in this call (their outcomes'
+   subrefs), at every depth.  [fuel] bounds the depth that is unfolded; theorems hold for every fuel. *)
+Fixpoint pg_deep_oracle (fuel : nat) (body : list (pg_hid * pg_srec)) (reason : pg_reason) (lc : pg_lifecycle) (now : Z)
+         (fam : pg_family) (leaf : pg_oracle) : pg_oracle :=
+  fun k n =>
+    match fuel, fam k with
+    | S f, Some (result, sub_owned, sub_selected) =>
+        let sr := pg_sub_execute body reason sub_owned sub_selected lc now (pg_deep_oracle f body reason lc now fam leaf) in
+        pg_parent_outcome result sr (sr_deeper sr)
+    | _, _ => leaf k n
+    end.
+
+(* every record on the object is a top-level one or referenced (subrefs) by a top-level one *)
+Definition pg_refs_closed (body : list (pg_hid * pg_srec)) (tops : list pg_hid) : Prop :=
+  forall s, pg_find s body <> None ->
+    In s tops \/ exists k d, In k tops /\ pg_find k body = Some d /\ In s (pg_or (s_subrefs d) []).
+
+(* an oracle whose writes into the shared patch are all reported as sub-handler references *)
+Definition pg_reports_stores (orc : pg_oracle) : Prop :=
+  forall k n s, In s (map fst (e_stores (snd (orc k n)))) -> In s (o_subrefs (fst (orc k n))).
 
 (* ------------------------------------------------------------------ comparison helpers for the differential *)
 Definition pg_pact_eqb (a b : option pg_pact) : bool :=
